@@ -90,12 +90,25 @@ def build():
 def candidates(path, ops=OPS):
     src = open(path).read().split('\n')
     out = []
-    intest = False
+    skip_item = False          # inside an item introduced by #[cfg(test)] / #[test] / #[cfg(bb_verif)]
+    armed = False
+    depth = 0
     for i, line in enumerate(src):
         t = line.strip()
-        if t.startswith('#[cfg(test)]'):
-            intest = True
-        if intest or not t or t.startswith(('//', '#[', '#![', 'use ', 'pub use ', '///', '*', '/*')):
+        if path.endswith('.rs'):
+            if t.startswith(('#[cfg(test)]', '#[test]', '#[cfg(bb_verif)]')) and not skip_item:
+                armed = True
+                continue
+            if armed and not skip_item:
+                if t.startswith('#['):
+                    continue
+                skip_item, armed, depth = True, False, 0
+            if skip_item:
+                depth += line.count('{') - line.count('}')
+                if depth <= 0 and (t.endswith((';', '}', '},')) or depth < 0):
+                    skip_item = False
+                continue
+        if not t or t.startswith(('//', '#[', '#![', 'use ', 'pub use ', '///', '*', '/*')):
             continue
         if 'bb_verif' in line:
             continue
